@@ -185,6 +185,11 @@ func (fr *Frame) static(x *ssa.Call, fn *ssa.Function, args []Val, fvs []Val, st
 
 func (fr *Frame) unknownCall(x *ssa.Call, name string, st *State, rch Term) Val {
 	vc := fr.vc
+	if top := vc.topFrame; top != nil && top.contract != nil && top.contract.Abstract {
+		// nothing is known about the state after the call: in an "abstract"
+		// function the path ends here instead of continuing with arbitrary memory
+		unsup("unmodelled call %s", name)
+	}
 	vc.note("unmodelled call %s: all memory havocked, result unconstrained", name)
 	vc.eng.unmodelled[name]++
 	var fams []string
